@@ -103,4 +103,302 @@ theorem isHead_of_no_event {F : List Rng} {t t' : Nat} {H : Rng}
         · exact Or.inr ((he X hXF hTop).2 h)
   exact ⟨(key H).1 hH.1, fun X hX => hH.2 X ((key X).2 hX)⟩
 
+
+/-- weak monotonicity: a range inside another one is at least as long -/
+def RngMono (F : List Rng) : Prop := ∀ R ∈ F, ∀ R' ∈ F, R.sub R' → R'.len ≤ R.len
+
+theorem cut_zero_inv (F : List Rng) : Inv F 0 [] := by
+  refine ⟨fun R => ⟨fun h => (by cases h), fun h => ?_⟩, List.Pairwise.nil⟩
+  have := h.2.1
+  unfold srank at this; omega
+
+theorem outPt_ip_le {F : List Rng} (hF : RngWF F) {g : GEv} (hg : g.r ∈ F) :
+    g.pt.ip * 1024 ≤ grank g ∧ grank g < g.pt.ip * 1024 + 1024 := by
+  obtain ⟨R, k⟩ := g
+  have b3 : R.len ≤ 128 := (hF.bounds R hg).2.2
+  cases k <;> simp only [grank, rank, GEv.pt] <;> omega
+
+/-- the points emitted at one address form a valley: descending while stops pop outwards, then
+ascending with the starts -/
+theorem valley_out {F : List Rng} (hF : RngWF F) (hM : RngMono F) {GO : List (GEv × Rng)}
+    (hsorted : GO.Pairwise fun x y => grank x.1 < grank y.1)
+    (hmem : ∀ gh ∈ GO, gh.1.r ∈ F ∧ IsHead F (grank gh.1) gh.2 ∧ (gh.1.kind = .start → gh.2 = gh.1.r)) :
+    Valley (GO.map outPt) := by
+  intro a b c hsub hab hbc hrise
+  obtain ⟨l', hl', hmap⟩ := List.sublist_map_iff.1 hsub
+  obtain ⟨ga, gb, gc, rfl⟩ : ∃ ga gb gc, l' = [ga, gb, gc] := by
+    match l', hmap with
+    | [x, y, z], _ => exact ⟨x, y, z, rfl⟩
+  simp only [List.map_cons, List.map_nil, List.cons.injEq, and_true] at hmap
+  obtain ⟨rfl, rfl, rfl⟩ := hmap
+  have hpw := List.Pairwise.sublist hl' hsorted
+  simp only [List.pairwise_cons, List.mem_cons, List.not_mem_nil, or_false, forall_eq_or_imp,
+    forall_eq, List.Pairwise.nil, and_true] at hpw
+  obtain ⟨⟨hab', hac'⟩, hbc'⟩ := hpw
+  have hma := hmem ga (hl'.subset (by simp))
+  have hmb := hmem gb (hl'.subset (by simp))
+  have hmc := hmem gc (hl'.subset (by simp))
+  obtain ⟨ga1, Ha⟩ := ga
+  obtain ⟨gb1, Hb⟩ := gb
+  obtain ⟨gc1, Hc⟩ := gc
+  simp only [outPt] at hab hbc hrise ⊢
+  simp only at hma hmb hmc hab' hbc' hac'
+  obtain ⟨ba1, ba2, ba3⟩ := hF.bounds ga1.r hma.1
+  obtain ⟨bb1, bb2, bb3⟩ := hF.bounds gb1.r hmb.1
+  obtain ⟨bc1, bc2, bc3⟩ := hF.bounds gc1.r hmc.1
+  -- b must be a start event
+  have hbstart : gb1.kind = .start := by
+    cases hk : gb1.kind with
+    | start => rfl
+    | stop =>
+      exfalso
+      -- then a is a stop too and Hb is open at a's cut, so Ha ⊆ Hb
+      obtain ⟨Ra, ka⟩ := ga1
+      obtain ⟨Rb, kb⟩ := gb1
+      simp only at hk; subst hk
+      simp only [GEv.pt] at hab
+      have hHb := hmb.2.1.1
+      have hopen : IsOpen F (grank ⟨Ra, ka⟩) Hb := by
+        obtain ⟨h1, h2, h3⟩ := hHb
+        obtain ⟨bh1, bh2, bh3⟩ := hF.bounds Hb h1
+        have hb' : grank ⟨Rb, Kind.stop⟩ = Rb.hi * 1024 + (255 - Rb.len) := rfl
+        have hiple := outPt_ip_le hF hma.1
+        have hipa : (GEv.mk Ra ka).pt.ip = Rb.hi := hab
+        rw [hipa] at hiple
+        rw [hb'] at h2 h3 hab'
+        refine ⟨h1, ?_, ?_⟩
+        · unfold srank at h2 ⊢; omega
+        · rcases h3 with h3 | h3
+          · exact Or.inl h3
+          · exact Or.inr (by omega)
+      have hsub := hma.2.1.2 Hb hopen
+      have := hM Ha hma.2.1.1.1 Hb hHb.1 ⟨hsub.1, hsub.2⟩
+      omega
+  -- hence c is a later start at the same address: longer than b
+  have hHb : Hb = gb1.r := hmb.2.2 hbstart
+  obtain ⟨Rb, kb⟩ := gb1
+  obtain ⟨Rc, kc⟩ := gc1
+  simp only at hbstart; subst hbstart
+  simp only at hHb; subst hHb
+  simp only [GEv.pt] at hbc
+  cases kc with
+  | stop =>
+    exfalso
+    have e1 : grank ⟨Hb, Kind.start⟩ = Hb.lo * 1024 + (512 + Hb.len) := rfl
+    have e2 : grank ⟨Rc, Kind.stop⟩ = Rc.hi * 1024 + (255 - Rc.len) := rfl
+    have hbc2 : Hb.lo = Rc.hi := hbc
+    rw [e1, e2] at hbc'
+    omega
+  | start =>
+    have hHc : Hc = Rc := hmc.2.2 rfl
+    subst hHc
+    have e1 : grank ⟨Hb, Kind.start⟩ = Hb.lo * 1024 + (512 + Hb.len) := rfl
+    have e2 : grank ⟨Hc, Kind.start⟩ = Hc.lo * 1024 + (512 + Hc.len) := rfl
+    have hbc2 : Hb.lo = Hc.lo := hbc
+    rw [e1, e2] at hbc'
+    show Ha.len < Hc.len
+    have hrise' : Ha.len < Hb.len := hrise
+    omega
+
+
+/-- the sweep output, annotated: for every event the range on top of the stack afterwards -/
+theorem sweep_out {F : List Rng} (hF : RngWF F) {GE : List GEv} (hcut : Cut F 0 GE) :
+    ∃ GO : List (GEv × Rng), GO.map Prod.fst = GE ∧
+      sweep (GE.map GEv.pt) [] = some (GO.map outPt) ∧
+      (GO.Pairwise fun x y => grank x.1 < grank y.1) ∧
+      ∀ gh ∈ GO, gh.1.r ∈ F ∧ IsHead F (grank gh.1) gh.2 ∧ (gh.1.kind = .start → gh.2 = gh.1.r) ∧
+        (gh.1.kind = .stop → gh.1.r.hi ≠ TOP) := by
+  obtain ⟨hs, hlen, hsw, hall⟩ := sweep_ghost hF GE 0 [] hcut (cut_zero_inv F)
+  have hfst : (GE.zip hs).map Prod.fst = GE := List.map_fst_zip (by omega)
+  refine ⟨GE.zip hs, hfst, hsw, ?_, ?_⟩
+  · have := hcut.sorted
+    rw [← hfst, List.pairwise_map] at this
+    exact this
+  · intro gh hgh
+    have hg : gh.1 ∈ GE := (List.of_mem_zip (a := gh.1) (b := gh.2) hgh).1
+    have := hcut.sound gh.1 hg
+    exact ⟨this.2.1, (hall gh hgh).1, (hall gh hgh).2, this.2.2⟩
+
+/-- facts about every emitted point -/
+theorem outPt_facts {F : List Rng} (hF : RngWF F) {gh : GEv × Rng}
+    (h : gh.1.r ∈ F ∧ IsHead F (grank gh.1) gh.2 ∧ (gh.1.kind = .start → gh.2 = gh.1.r) ∧
+      (gh.1.kind = .stop → gh.1.r.hi ≠ TOP)) :
+    (outPt gh).ip < TOP ∧ (outPt gh).maskLen ≤ 128 ∧ ((outPt gh).loc = none → (outPt gh).maskLen = 0) ∧
+      ∃ R ∈ F, (outPt gh).loc = R.loc ∧ (outPt gh).maskLen = R.len := by
+  obtain ⟨⟨R, k⟩, H⟩ := gh
+  obtain ⟨h1, h2, _, h4⟩ := h
+  have hHF : H ∈ F := h2.1.1
+  obtain ⟨b1, b2, b3⟩ := hF.bounds R h1
+  refine ⟨?_, (hF.bounds H hHF).2.2, hF.null_len H hHF, H, hHF, rfl, rfl⟩
+  cases k with
+  | start => simp only [outPt, GEv.pt]; omega
+  | stop =>
+    have := h4 rfl
+    simp only [outPt, GEv.pt]; simp only at this; omega
+
+/-- **rangepoint_keys_distinct**: the squashed table is strictly sorted by database key -/
+theorem table_sorted {F : List Rng} (hF : RngWF F) (hM : RngMono F) {GO : List (GEv × Rng)}
+    (hsorted : GO.Pairwise fun x y => grank x.1 < grank y.1)
+    (hmem : ∀ gh ∈ GO, gh.1.r ∈ F ∧ IsHead F (grank gh.1) gh.2 ∧ (gh.1.kind = .start → gh.2 = gh.1.r) ∧
+      (gh.1.kind = .stop → gh.1.r.hi ≠ TOP)) :
+    (squash [] (GO.map outPt)).Pairwise fun u v => keyLt (pkey u) (pkey v) = true := by
+  have hip : (GO.map outPt).Pairwise fun a b => a.ip ≤ b.ip := by
+    rw [List.pairwise_map]
+    refine List.Pairwise.imp_of_mem ?_ hsorted
+    intro x y hx hy hlt
+    have h1 := outPt_ip_le hF (hmem x hx).1
+    have h2 := outPt_ip_le hF (hmem y hy).1
+    show x.1.pt.ip ≤ y.1.pt.ip
+    omega
+  have hval := valley_out hF hM hsorted fun gh hgh => ⟨(hmem gh hgh).1, (hmem gh hgh).2.1, (hmem gh hgh).2.2.1⟩
+  have hks := squash_keySorted _ hip hval
+  have hfacts : ∀ p ∈ squash [] (GO.map outPt), (p.loc = none → p.maskLen = 0) ∧ p.maskLen < 256 := by
+    intro p hp
+    have hp' : p ∈ GO.map outPt := (squash_sublist _).subset hp
+    obtain ⟨gh, hgh, rfl⟩ := List.mem_map.1 hp'
+    have := outPt_facts hF (hmem gh hgh)
+    exact ⟨this.2.2.1, by omega⟩
+  refine List.Pairwise.imp_of_mem ?_ hks
+  intro u v hu hv huv
+  rw [keyLt_of_ip_maskLen (hfacts u hu).1 (hfacts v hv).1 (hfacts u hu).2 (hfacts v hv).2]
+  exact decide_eq_true huv
+
+
+/-- an event after the cut of the lookup key is at a later address, or a start at `a` longer than `req` -/
+theorem after_krank {F : List Rng} (hF : RngWF F) {gh : GEv × Rng} {a req : Nat} (hreq : req < 256)
+    (h : gh.1.r ∈ F ∧ IsHead F (grank gh.1) gh.2 ∧ (gh.1.kind = .start → gh.2 = gh.1.r) ∧
+      (gh.1.kind = .stop → gh.1.r.hi ≠ TOP))
+    (hk : krank a req < grank gh.1) :
+    a < (outPt gh).ip ∨ ((outPt gh).ip = a ∧ req < (outPt gh).maskLen) := by
+  obtain ⟨⟨R, k⟩, H⟩ := gh
+  obtain ⟨h1, _, h3, _⟩ := h
+  obtain ⟨b1, b2, b3⟩ := hF.bounds R h1
+  cases k with
+  | stop =>
+    have e : grank ⟨R, Kind.stop⟩ = R.hi * 1024 + (255 - R.len) := rfl
+    rw [e] at hk
+    unfold krank at hk
+    left
+    show a < R.hi
+    omega
+  | start =>
+    have e : grank ⟨R, Kind.start⟩ = R.lo * 1024 + (512 + R.len) := rfl
+    rw [e] at hk
+    unfold krank at hk
+    have hH : H = R := h3 rfl
+    subst hH
+    show a < H.lo ∨ (H.lo = a ∧ req < H.len)
+    omega
+
+/-- **the lookup theorem, abstract form**: the predecessor of `(a, req)` in the squashed table
+carries mask length and location of the innermost range containing `a` that is no longer than `req` -/
+theorem sweep_lookup {F : List Rng} (hF : RngWF F) (hM : RngMono F) {GO : List (GEv × Rng)}
+    (hsorted : GO.Pairwise fun x y => grank x.1 < grank y.1)
+    (hmem : ∀ gh ∈ GO, gh.1.r ∈ F ∧ IsHead F (grank gh.1) gh.2 ∧ (gh.1.kind = .start → gh.2 = gh.1.r) ∧
+      (gh.1.kind = .stop → gh.1.r.hi ≠ TOP))
+    (hall : ∀ R ∈ F, (⟨R, .start⟩ : GEv) ∈ GO.map Prod.fst ∧
+      (R.hi ≠ TOP → (⟨R, .stop⟩ : GEv) ∈ GO.map Prod.fst))
+    {a req : Nat} (ha : a < TOP) (hreq : req < 256)
+    (hA : ∀ R ∈ F, R.lo < a → a < R.hi → R.len ≤ req) :
+    ∃ H, Inner F a req H ∧ lookupRes (squash [] (GO.map outPt)) a req = (H.loc, H.len) ∧
+      (lookup (squash [] (GO.map outPt)) a req).isSome = true := by
+  obtain ⟨R0, hR0F, hR0lo, hR0hi, hR0len⟩ := hF.base
+  -- the first event is not after the cut
+  obtain ⟨x0, hx0, hx0e⟩ := List.mem_map.1 (hall R0 hR0F).1
+  have hne : GO ≠ [] := fun h => by rw [h] at hx0; cases hx0
+  have hhead : ∀ x, GO.head? = some x → grank x.1 ≤ krank a req := by
+    intro x hx
+    have hs0 : srank R0 ≤ krank a req := by unfold srank krank; omega
+    have hx0r : grank x0.1 = srank R0 := by rw [hx0e]; rfl
+    cases GO with
+    | nil => cases hx
+    | cons y ys =>
+      cases hx
+      rcases List.mem_cons.1 hx0 with h | h
+      · rw [← h]; omega
+      · have := (List.pairwise_cons.1 hsorted).1 x0 h
+        omega
+  obtain ⟨pre, x, post, hGO, hxk, hpre, hpost⟩ :=
+    split_at_threshold (fun gh : GEv × Rng => grank gh.1) (krank a req) GO hsorted hhead hne
+  have hxmem : x ∈ GO := by rw [hGO]; simp
+  have hxf := hmem x hxmem
+  -- no event of F lies between x and the cut
+  have hwhere : ∀ g : GEv, g ∈ GO.map Prod.fst → grank g ≤ grank x.1 ∨ krank a req < grank g := by
+    intro g hg
+    obtain ⟨y, hy, rfl⟩ := List.mem_map.1 hg
+    rw [hGO] at hy
+    rcases List.mem_append.1 hy with h | h
+    · exact Or.inl (Nat.le_of_lt (hpre y h))
+    · rcases List.mem_cons.1 h with h | h
+      · rw [h]; exact Or.inl (Nat.le_refl _)
+      · exact Or.inr (hpost y h)
+  have hHead : IsHead F (krank a req) x.2 := by
+    refine isHead_of_no_event ?_ ?_ hxf.2.1
+    · intro R hR
+      constructor
+      · intro h; exact Nat.le_trans h hxk
+      · intro h
+        rcases hwhere _ (hall R hR).1 with h' | h'
+        · exact h'
+        · rw [grank_start] at h'; omega
+    · intro R hR hTop
+      constructor
+      · intro h
+        rcases hwhere _ ((hall R hR).2 hTop) with h' | h'
+        · rw [grank_stop] at h'; omega
+        · rwa [grank_stop] at h'
+      · intro h; omega
+  have hInner := inner_of_isHead hF ha hreq hA hHead
+  refine ⟨x.2, hInner, ?_⟩
+  -- the point emitted for x
+  have hpf := outPt_facts hF hxf
+  have hpip : (outPt x).ip ≤ a := by
+    have := outPt_ip_le hF hxf.1
+    unfold krank at hxk
+    show x.1.pt.ip ≤ a
+    omega
+  have hpml : (outPt x).maskLen ≤ req := hInner.2.2.2.1
+  -- it is not replaced by its successor
+  have hnorep : ∀ q, (post.map outPt).head? = some q →
+      ¬ ((outPt x).ip = q.ip ∧ (outPt x).maskLen ≥ q.maskLen) := by
+    intro q hq
+    cases post with
+    | nil => cases hq
+    | cons y ys =>
+      simp only [List.map_cons, List.head?_cons, Option.some.injEq] at hq
+      subst hq
+      have hy : y ∈ GO := by rw [hGO]; simp
+      have := after_krank hF hreq (hmem y hy) (hpost y List.mem_cons_self)
+      omega
+  have hO : GO.map outPt = pre.map outPt ++ outPt x :: post.map outPt := by
+    rw [hGO, List.map_append, List.map_cons]
+  obtain ⟨T1, hT1⟩ := squash_snoc_last (pre.map outPt) (outPt x)
+  have hT : squash [] (GO.map outPt) = T1 ++ outPt x :: squash [] (post.map outPt) := by
+    rw [hO, squash_split _ _ _ hnorep, hT1, List.append_assoc]; rfl
+  have hsortedT := table_sorted hF hM hsorted hmem
+  have hlk : lookup (squash [] (GO.map outPt)) a req = some (outPt x) := by
+    rw [hT] at hsortedT ⊢
+    apply lookup_sorted_split _ _ _ _ _ hsortedT
+    · rw [pkey_eq hpf.2.2.1 (by omega)]
+      unfold keyLe keyLt
+      simp only [Bool.not_eq_true', decide_eq_false_iff_not]
+      omega
+    · intro q hq
+      rcases squash_mem hq with h | h
+      · cases h
+      · obtain ⟨y, hy, rfl⟩ := List.mem_map.1 h
+        have hyG : y ∈ GO := by rw [hGO]; simp [hy]
+        have hqf := outPt_facts hF (hmem y hyG)
+        have := after_krank hF hreq (hmem y hyG) (hpost y hy)
+        rw [pkey_eq hqf.2.2.1 (by omega)]
+        unfold keyLe keyLt
+        simp only [Bool.not_eq_false', decide_eq_true_iff]
+        omega
+  refine ⟨?_, by rw [hlk]; rfl⟩
+  unfold lookupRes
+  rw [hlk]
+  show ((outPt x).loc, (pkey (outPt x)).2) = _
+  rw [pkey_eq hpf.2.2.1 (by omega)]
+  rfl
+
 end DnsVerif.Lpm
